@@ -347,4 +347,36 @@ func runJobctlScenarios(c *Ctx) {
 		}
 		c.Nontrivial()
 	})
+
+	// Correspondence regression (no defect of the code): the delete batches of one sync
+	// (pending-timeout, kill sweep, force delete) are SEQUENTIAL; only the deletes inside one
+	// batch race.  The watch events of the kill batch therefore precede those of the
+	// force-delete batch, whatever the names are.
+	c.RunScenario("delete-batches-sequential", func() {
+		w := newJobctlSc(c, func(j *execution.Job) { j.Spec.Template.Parallelism = &execution.ParallelismSpec{WithCount: i64p(2)} })
+		w.kubeletDead = true
+		w.flush()
+		w.work() // creates both pods
+		w.flush()
+		ps := w.ownedPods() // sorted by key: ps[0] < ps[1]
+		if len(ps) != 2 {
+			return
+		}
+		w.kubelet(ps[1], 1) // the LATER name runs; the earlier one stays pending
+		w.flush()
+		w.work()
+		w.flush()
+		w.adv(901)
+		w.work() // pending timeout: graceful delete of ps[0] (dead kubelet: it stays Terminating)
+		w.flush()
+		w.adv(901)
+		w.setKill(w.clk.Now().Unix())
+		w.flush()
+		w.work() // kill batch: graceful delete of ps[1]; THEN force batch: ps[0]
+		w.deliver("pods") // the first of the two events: ps[1] (update), not ps[0] (delete)
+		w.work()
+		w.flush()
+		w.settle(3)
+		c.Nontrivial()
+	})
 }
